@@ -15,7 +15,8 @@ type baseProgram struct {
 }
 
 var basePrograms = []baseProgram{
-	{"flow", false, `package main
+	{"flow", false, `@extensions true
+package main
 
 import "fmt"
 
@@ -63,7 +64,8 @@ outer:
     fmt.Println(total)
 }
 `},
-	{"decls", false, `package main
+	{"decls", false, `@extensions true
+package main
 
 import (
     "fmt"
@@ -111,7 +113,8 @@ func main() {
     fmt.Println(sh.Area(), text, n, High, counter, label)
 }
 `},
-	{"exprs", false, `package main
+	{"exprs", false, `@extensions true
+package main
 
 import "fmt"
 
@@ -137,13 +140,12 @@ func main() {
         return v * 2
     }, nums[1] + 1)
     fmt.Println(len(nums[1:]), byName["a"].x, any.(int), r, -r * (2 + 3), !(r > 2))
-    fmt.Println(
-        "multi",
-        float64(r) / 4.0,
-    )
+    fmt.Println("multi",
+        float64(r) / 4.0)
 }
 `},
-	{"ext", false, `package main
+	{"ext", false, `@extensions true
+package main
 
 import "fmt"
 
@@ -173,7 +175,8 @@ func main() {
     call risky(0)
 }
 `},
-	{"frag", true, `import "fmt"
+	{"frag", true, `@extensions true
+import "fmt"
 
 func double(v int) int {
     return v * 2
